@@ -114,6 +114,11 @@ TRIVIA: list[tuple[str, str, str]] = [
     # implicit rules that call other rules: their bodies are matched atomically, silent or not
     ("ws-calls", 'WHITESPACE = _{ sp }\nsp = { " " }', " "),
     ("ws-calls-compound", 'WHITESPACE = _{ sp }\nsp = ${ " " ~ sq? }\nsq = { "#" }', " #"),
+    # implicit rules with a modifier of their own: still matched atomically, unless `$`
+    ("cm-bang", 'COMMENT = !{ "#" ~ "b"* ~ "#" }\nWHITESPACE = _{ " " }', " #"),
+    ("ws-bang", 'WHITESPACE = !{ " " ~ "#"? }\nCOMMENT = _{ "b#" }', " #"),
+    ("ws-at", 'WHITESPACE = @{ " " ~ sp? }\nsp = { "#" }', " #"),
+    ("cm-dollar", 'COMMENT = ${ "#" ~ sq* ~ "#" }\nsq = { "b" }\nWHITESPACE = _{ " " }', " #"),
     ("cm-calls-nonatomic", 'COMMENT = _{ "#" ~ cq }\ncq = !{ "b" ~ "b"? }\nWHITESPACE = { sp }\nsp = { " " }', " #"),
 ]
 
@@ -379,12 +384,14 @@ def opt_cases(seed: int, n: int) -> list[dict]:
             alpha = "abck"[: rng.randint(2, 4)]
         elif k == 1:    # skip-until shapes, inside and outside atomic rules, with and without trivia
             stop = rng.choice(['"b"', '("b" | "ab")', 'stop', '("b" | stop)', '""', '("a" | "b")', '("ab" | "ca")',
-                               '("c" | "bcd")', '("b" | "a")'])
+                               '("c" | "bcd")', '("b" | "a")', 'upto', '("b" | upto)'])
             mod = rng.choice(["", "@", "$", "!", "_"])
             head = rng.choice(['"a"? ~ ', "", ""])
             rules.append(f'start = {mod}{{ {head}(!{stop} ~ ANY)* ~ "b"? }}')
             alpha = "abcd"[: rng.randint(2, 4)]
             rules.append('stop = { "ba" }')
+            # an operand that is itself a skip-until is not a literal; defined first so that it is rewritten first
+            rules.insert(0, f'upto = {rng.choice(["@", "", "$"])}{{ (!"a" ~ ANY)* }}')
         elif k == 2:    # silent rules referenced under every modifier; tags
             rules.append(f'start = {rng.choice(["", "@", "$", "!"])}{{ {rng.choice(["", "#tg = "])}sil ~ "b"? ~ nr* }}')
             rules.append(f'sil = {rng.choice(["_", "_"])}{{ "a" ~ {rng.choice(["nr", "\"b\"", "sil2"])} }}')
@@ -394,7 +401,11 @@ def opt_cases(seed: int, n: int) -> list[dict]:
             rules.append(f'start = {rng.choice(["", "@", "$"])}{{ "a" ~ WHITESPACE ~ "b" ~ COMMENT? }}')
         elif k == 4:    # every bounded repetition form around sequences
             op = rng.choice(["+", "{2}", "{1,}", "{,2}", "{1,2}", "{0,1}", "{2,3}"])
-            rules.append(f'start = {rng.choice(["", "@", "!"])}{{ ("a" ~ "b"?){op} ~ "a"* }}')
+            if rng.random() < 0.35:   # a tagged group under the repetition: every iteration carries the tag
+                rules.append(f'start = {rng.choice(["", "@", "!"])}{{ #tg = (nr ~ "b"?){op} ~ "a"* }}')
+                rules.append('nr = { "a" }')
+            else:
+                rules.append(f'start = {rng.choice(["", "@", "!"])}{{ ("a" ~ "b"?){op} ~ "a"* }}')
         elif k == 6:    # choices nested through silent rules that inlining flattens
             inner = rng.choice(['"a" | nb', 'nb | "a"', '"a" | "ab" | nb', "'b'..'a' | \"a\"", '"a" | (nb | "b")'])
             rules.append(f'start = {{ (sil | {rng.choice(lits[:8])})+ }}')
@@ -451,6 +462,20 @@ def opt_cases(seed: int, n: int) -> list[dict]:
 
 
 # --------------------------------------------------------------------------- stack histories as grammars
+
+def skip_trivia_cases() -> list[dict]:
+    """Deterministic product: every trivia configuration x rule modifier x stop shape for (!stop ~ ANY)*,
+    default optimizer: the skip rewrite must only happen where implicit trivia is off."""
+    cases = []
+    for tlabel, trules, textra in TRIVIA:
+        for mod in START_MODS:
+            for stop in ('"b"', '("b" | "ab")', "stop"):
+                g = f'start = {mod}{{ "a"? ~ (!{stop} ~ ANY)* ~ "b"? }}\nstop = {{ "ba" }}\n' + (trules + "\n" if trules else "")
+                cases.append({"family": "OPT", "label": f"skip-until under trivia {tlabel} / start {mod or 'normal'}",
+                              "grammar": g, "rules": ["start"], "alphabet": alphabet_for("", textra)[:4],
+                              "maxlen": 4, "starts": "zero", "passes": None})
+    return cases
+
 
 def stack_cases(seed: int, n: int) -> list[dict]:
     """Grammars that drive the user stack through nested backtracking: two or three nested
